@@ -30,4 +30,14 @@ def dataFormats : List (String × List (String × String)) :=
 def boundsSteps : List (String × String × String) :=
   [("exclusiveMaximum", "True", "move:maximum"), ("exclusiveMaximum", "False", "drop"), ("exclusiveMinimum", "True", "move:minimum"), ("exclusiveMinimum", "False", "drop")]
 
+/-- the loop of JsonSchemaParser._parse_file over `schema_paths` (one entry per statement) and the later
+loops over the list it fills (header, assignments to `path`, `self.parse_*` calls) -/
+def containerLoop : List String :=
+  ["for (schema_path, split_schema_path) in self.schema_paths:",
+   "try: found = get_model_by_path(raw, split_schema_path)",
+   "except KeyError: continue",
+   "if found: definitions.extend(((schema_path, key, model) for key, model in found.items()))",
+   "for (schema_path, key, model) in definitions: self.parse_id(obj, [*path_parts, schema_path, key])",
+   "for (schema_path, key, model) in definitions: path = [*path_parts, schema_path, key]; self.parse_raw_obj(key, model, path)"]
+
 end Dcg.Gen.Formats
